@@ -264,10 +264,14 @@ def nested_reassign(prog):
     return walk(prog.body, depth0)
 
 
-def has_nonlinear_cycle(prog, simple):
+def has_nonlinear_cycle(prog, simple, finite=None):
     """own reading of restriction 3 on the SOURCE program: is there a dependency cycle through an edge that is non-linear
     (a monomial with two non-simple variables, or one non-simple variable of power > 1)?  `simple` = finitely valued / drawn variables."""
     from vlib.lang import If, Simult
+    # a drawn variable is "simple" only if every assignment to it in the body is a draw: a variable that is drawn in one
+    # branch and computed (x, y = y, x) in another carries the computed value into later monomials
+    computed = {a.var for a in prog.all_assigns(prog.body) if a.kind != "dist"}
+    simple = {v for v in simple if v in (finite or set()) or v not in computed}
     edges = {}   # (src, dst) -> nonlinear?
 
     def visit(stmts):
@@ -393,7 +397,8 @@ def job_accept(item):
                                    "what": f"program.defective_variables = {sorted(map(str, program.defective_variables))} but the classifier on the normalised program yields {sorted(map(str, d2))} (witness {pid})",
                                    "replay": {"text": text}})
         elif program.defective_variables and not has_nonlinear_cycle(
-                prog, {str(v) for v in program.finite_variables} | {str(v) for v in program.dist_variables} | {str(v) for v in program.func_variables}):
+                prog, {str(v) for v in program.finite_variables} | {str(v) for v in program.dist_variables} | {str(v) for v in program.func_variables},
+                finite={str(v) for v in program.finite_variables}):
             out["records"].append({"kind": "violation", "key": "classification|defective-in-class", "tag": pid,
                                    "what": f"variables {sorted(map(str, program.defective_variables))} of a program without non-linear dependency cycles are classified defective (witness {pid})",
                                    "replay": {"text": text}})
